@@ -839,11 +839,14 @@ where
 
 /// Parse the referrals from the supplied BER-encoded sequence.
 pub fn parse_refs(t: StructureTag) -> Vec<String> {
-    t.expect_constructed()
-        .expect("referrals")
+    try_parse_refs(t).expect("referrals")
+}
+
+/// Fallible variant of [`parse_refs()`](fn.parse_refs.html), for input coming straight
+/// from the network.
+pub(crate) fn try_parse_refs(t: StructureTag) -> Option<Vec<String>> {
+    t.expect_constructed()?
         .into_iter()
-        .map(|t| t.expect_primitive().expect("octet string"))
-        .map(String::from_utf8)
-        .map(|s| s.expect("uri"))
+        .map(|t| t.expect_primitive().and_then(|s| String::from_utf8(s).ok()))
         .collect()
 }
